@@ -14,6 +14,7 @@ COMMON_ASSUMPTIONS = [
 ]
 
 PROPS = {
+    "C11": {},
     "C01": {}, "C02": {}, "C03": {}, "C04": {}, "C05": {}, "C06": {}, "C19": {}, "C20": {},
     "C07": {
         "bounds": "one API call from an arbitrary register file satisfying the invariant (17 64-bit keys present): "
